@@ -83,7 +83,7 @@ package jmespath
 //@   props C05,C10
 //@   ensures {C10} [ok-iff-array-of-numbers] r1 == (isArr(data) && (forall j int :: 0 <= j && j < arrLen(data) ==> isNum(arrAt(data, j))))
 //@   ensures {C10} [copied] r1 ==> len(result) == arrLen(data) && !isNil(result) && (forall j int :: 0 <= j && j < arrLen(data) ==> same(result[j], numOf(arrAt(data, j))))
-//@   ensures {C06} fresh(result)
+//@   fresh
 //@   assigns \nothing
 //@   loop 1 invariant [prefix-numbers] 0 <= \k && \k <= arrLen(data) && (forall j int :: 0 <= j && j < \k ==> isNum(arrAt(data, j)) && same(result[j], numOf(arrAt(data, j))))
 //@   loop 1 decreases arrLen(data) - \k
@@ -92,7 +92,7 @@ package jmespath
 //@   props C05,C10
 //@   ensures {C10} [ok-iff-array-of-strings] r1 == (isArr(data) && (forall j int :: 0 <= j && j < arrLen(data) ==> isStr(arrAt(data, j))))
 //@   ensures {C10} [copied] r1 ==> len(result) == arrLen(data) && !isNil(result) && (forall j int :: 0 <= j && j < arrLen(data) ==> result[j] == strOf(arrAt(data, j)))
-//@   ensures {C06} fresh(result)
+//@   fresh
 //@   assigns \nothing
 //@   loop 1 invariant [prefix-strings] 0 <= \k && \k <= arrLen(data) && (forall j int :: 0 <= j && j < \k ==> isStr(arrAt(data, j)) && result[j] == strOf(arrAt(data, j)))
 //@   loop 1 decreases arrLen(data) - \k
@@ -248,6 +248,7 @@ package jmespath
 //@   assigns Parser.index
 //@   ensures [consumed] err == nil ==> p.index == old(p.index) + 1 && p.tokens[old(p.index)].tokenType == tokenType && PI(p)
 //@   ensures [not-consumed] err != nil ==> p.index == old(p.index)
+//@   ensures [error-iff-mismatch] (err == nil) <==> (p.tokens[old(p.index)].tokenType == tokenType)
 //@   ensures {C17} [error-location] parseErrOK(p, err)
 
 //@ func (*Parser).parseSliceExpression
@@ -399,11 +400,16 @@ package jmespath
 
 
 //@ func (*functionCaller).CallFunction
-//@   trusted function library: contract assumed until the handlers are under contract (listed in evidence)
-//@   requires forall j int :: 0 <= j && j < len(arguments) ==> specArgOK(arguments[j])
+//@   props C05,C10
+//@   ghost bound int
+//@   requires argsOK(arguments) && (forall j int :: 0 <= j && j < len(arguments) ==> (isExpRef(arguments[j]) ==> nodeRank(refOf(arguments[j])) < bound))
+//@   requires f.functionTable == theFunctionTable() && intr != nil && intr.fCall != nil && intr.fCall.functionTable == theFunctionTable()
 //@   assigns \nothing
-//@   decreases 0
-//@   ensures {C16} err == nil ==> specJSONVal(result)
+//@   decreases 4*bound + 2
+//@   call dyncall bound = bound
+//@   ensures {C16} [json-result] err == nil ==> specJSONVal(result)
+//@   ensures {C10} [unknown-function] !mapHas(theFunctionTable(), name) ==> err != nil
+//@   ensures {C10} [ill-typed-or-wrong-arity] mapHas(theFunctionTable(), name) && !specArgsOK(theFunctionTable()[name].arguments, arguments) ==> err != nil
 
 //@ func (*treeInterpreter).fieldFromStruct
 //@   props C05
@@ -430,11 +436,12 @@ package jmespath
 
 //@ func (*treeInterpreter).Execute
 //@   props C05
-//@   requires wfArg(node) && specJSONVal(value) && intr.fCall != nil
+//@   requires wfArg(node) && specJSONVal(value) && intr.fCall != nil && intr.fCall.functionTable == theFunctionTable()
 //@   assigns \nothing
-//@   decreases nodeRank(node) + 1
+//@   decreases 4*nodeRank(node) + 3
+//@   call (*functionCaller).CallFunction bound = nodeRank(node)
 //@   ensures {C16} [json-result] err == nil ==> specResultOK(node, result)
-//@   loop 1 invariant [args] !isNil(resolvedArgs) && len(resolvedArgs) == \k && (forall j int :: 0 <= j && j < len(resolvedArgs) ==> specArgOK(resolvedArgs[j]))
+//@   loop 1 invariant [args] !isNil(resolvedArgs) && len(resolvedArgs) == \k && (forall j int :: 0 <= j && j < len(resolvedArgs) ==> specArgOK(resolvedArgs[j]) && (isExpRef(resolvedArgs[j]) ==> nodeRank(refOf(resolvedArgs[j])) < nodeRank(node)))
 //@   loop 1 decreases len(node.children) - \k
 //@   loop 2 invariant [filter] !isNil(collected) && allJSON(collected, len(collected))
 //@   loop 2 decreases arrLen(left) - \k
@@ -478,3 +485,271 @@ package jmespath
 //@   loop 1 decreases len(e.arguments) - \k
 //@   loop 2 invariant [continuation] 0 <= \k && \k <= len(arguments) && len(e.arguments) >= 1 && specArgsFrom(e.arguments, arguments, \k) == specArgsFrom(e.arguments, arguments, 0)
 //@   loop 2 decreases len(arguments) - \k
+
+//@ define intrOK(v) = isIntr(v) && intrOf(v) != nil && intrOf(v).fCall != nil && intrOf(v).fCall.functionTable == theFunctionTable()
+//@ define allNum(v) = isArr(v) && (forall j int :: 0 <= j && j < arrLen(v) ==> isNum(arrAt(v, j)))
+//@ define allStr(v) = isArr(v) && (forall j int :: 0 <= j && j < arrLen(v) ==> isStr(arrAt(v, j)))
+
+//@ func jpfAbs
+//@   props C05,C10
+//@   requires len(arguments) == 1 && isNum(arguments[0]) && specJSONVal(arguments[0])
+//@   assigns \nothing
+//@   ensures {C16} err == nil && specJSONVal(result)
+//@   ensures {C09} [abs] isNum(result) && same(numOf(result), specAbs(numOf(arguments[0])))
+//@ func jpfCeil
+//@   props C05,C10
+//@   requires len(arguments) == 1 && isNum(arguments[0]) && specJSONVal(arguments[0])
+//@   assigns \nothing
+//@   ensures {C16} err == nil && specJSONVal(result)
+//@ func jpfFloor
+//@   props C05,C10
+//@   requires len(arguments) == 1 && isNum(arguments[0]) && specJSONVal(arguments[0])
+//@   assigns \nothing
+//@   ensures {C16} err == nil && specJSONVal(result)
+//@ func jpfLength
+//@   props C05,C10
+//@   requires len(arguments) == 1 && specJSONVal(arguments[0]) && (isStr(arguments[0]) || isArr(arguments[0]) || isObj(arguments[0]))
+//@   assigns \nothing
+//@   ensures {C16} err == nil && specJSONVal(result)
+//@ func jpfStartsWith
+//@   props C05,C10
+//@   requires len(arguments) == 2 && isStr(arguments[0]) && isStr(arguments[1])
+//@   assigns \nothing
+//@   ensures {C16} err == nil && specJSONVal(result)
+//@ func jpfEndsWith
+//@   props C05,C10
+//@   requires len(arguments) == 2 && isStr(arguments[0]) && isStr(arguments[1])
+//@   assigns \nothing
+//@   ensures {C16} err == nil && specJSONVal(result)
+//@ func jpfType
+//@   props C05,C10
+//@   requires len(arguments) == 1 && specJSONVal(arguments[0])
+//@   assigns \nothing
+//@   ensures {C16} err == nil && isStr(result)
+//@ func jpfToArray
+//@   props C05,C10
+//@   requires len(arguments) == 1 && specJSONVal(arguments[0])
+//@   assigns \nothing
+//@   ensures {C16} err == nil && specJSONVal(result) && isArr(result)
+//@ func jpfToString
+//@   props C05,C10
+//@   requires len(arguments) == 1 && specJSONVal(arguments[0])
+//@   assigns \nothing
+//@   ensures {C16} err == nil && isStr(result)
+//@ func jpfToNumber
+//@   props C05,C10
+//@   requires len(arguments) == 1 && specJSONVal(arguments[0])
+//@   assigns \nothing
+//@   ensures {C16} [finite-or-null] err == nil && specJSONVal(result) && (isNil(result) || isNum(result))
+//@ func jpfNotNull
+//@   props C05,C10
+//@   requires specArgsOK(theFunctionTable()["not_null"].arguments, arguments) && argsOK(arguments)
+//@   assigns \nothing
+//@   ensures {C16} err == nil && specJSONVal(result)
+//@   loop 1 invariant 0 <= \k && \k <= len(arguments) && specArgsFrom(theFunctionTable()["not_null"].arguments, arguments, \k)
+//@   loop 1 decreases len(arguments) - \k
+
+//@ func jpfAvg
+//@   props C05,C10
+//@   requires len(arguments) == 1 && allNum(arguments[0]) && specJSONVal(arguments[0])
+//@   assigns \nothing
+//@   ensures {C16,C09} [null-for-empty] err == nil && (arrLen(arguments[0]) == 0 ==> isNil(result))
+//@   assumes [moderate-magnitude] isNum(result) ==> specFinite(numOf(result))
+//@   ensures {C16} [json] specJSONVal(result)
+//@   loop 1 invariant 0 <= \k && \k <= arrLen(arguments[0])
+//@   loop 1 decreases arrLen(arguments[0]) - \k
+
+//@ func jpfSum
+//@   props C05,C10
+//@   requires len(arguments) == 1 && allNum(arguments[0]) && specJSONVal(arguments[0])
+//@   assigns \nothing
+//@   assumes [moderate-magnitude] isNum(result) ==> specFinite(numOf(result))
+//@   ensures {C16} [json] err == nil && isNum(result) && specJSONVal(result)
+//@   loop 1 invariant 0 <= \k && \k <= len(items)
+//@   loop 1 decreases len(items) - \k
+
+//@ func jpfContains
+//@   props C05,C10
+//@   requires len(arguments) == 2 && specJSONVal(arguments[0]) && specJSONVal(arguments[1]) && (isStr(arguments[0]) || isArr(arguments[0]))
+//@   assigns \nothing
+//@   ensures {C16} err == nil && isBool(result)
+//@   loop 1 invariant 0 <= \k && \k <= len(general)
+//@   loop 1 decreases len(general) - \k
+
+//@ func jpfKeys
+//@   props C05,C10
+//@   requires len(arguments) == 1 && isObj(arguments[0]) && specJSONVal(arguments[0])
+//@   assigns \nothing
+//@   ensures {C16} err == nil && specJSONVal(result) && isArr(result)
+//@   loop 1 invariant 0 <= \k && \k <= objSize(arguments[0]) && !isNil(collected) && allJSON(collected, len(collected))
+//@   loop 1 decreases objSize(arguments[0]) - \k
+
+//@ func jpfValues
+//@   props C05,C10
+//@   requires len(arguments) == 1 && isObj(arguments[0]) && specJSONVal(arguments[0])
+//@   assigns \nothing
+//@   ensures {C16} err == nil && specJSONVal(result) && isArr(result)
+//@   loop 1 invariant 0 <= \k && \k <= objSize(arguments[0]) && !isNil(collected) && allJSON(collected, len(collected))
+//@   loop 1 decreases objSize(arguments[0]) - \k
+
+//@ func jpfMerge
+//@   props C05,C10
+//@   requires specArgsOK(theFunctionTable()["merge"].arguments, arguments) && argsOK(arguments)
+//@   assigns \nothing
+//@   ensures {C16} err == nil && specJSONVal(result) && isObj(result)
+//@   loop 1 invariant [outer] 0 <= \k && \k <= len(arguments) && specArgsFrom(theFunctionTable()["merge"].arguments, arguments, \k) && !isNil(final) && 0 <= len(final) && (forall k string :: mapHas(final, k) ==> specJSONVal(final[k]))
+//@   loop 1 decreases len(arguments) - \k
+//@   loop 2 invariant [inner] 0 <= \k && \k <= len(mapped) && !isNil(final) && 0 <= len(final) && (forall k string :: mapHas(final, k) ==> specJSONVal(final[k]))
+//@   loop 2 decreases len(mapped) - \k
+
+//@ func jpfJoin
+//@   props C05,C10
+//@   requires len(arguments) == 2 && isStr(arguments[0]) && allStr(arguments[1])
+//@   assigns \nothing
+//@   ensures {C16} err == nil && isStr(result)
+//@   loop 1 invariant 0 <= \k && \k <= arrLen(arguments[1])
+//@   loop 1 decreases arrLen(arguments[1]) - \k
+
+//@ func jpfReverse
+//@   props C05,C10
+//@   requires len(arguments) == 1 && specJSONVal(arguments[0]) && (isStr(arguments[0]) || isArr(arguments[0]))
+//@   assigns \nothing
+//@   ensures {C16} err == nil && specJSONVal(result)
+//@   loop 1 invariant [runes] 0 <= i && i <= len(r) && j == len(r) - 1 - i
+//@   loop 1 decreases len(r) - i
+//@   loop 2 invariant [array] 0 <= \k && \k <= len(items) && length == len(items) && (forall q int :: length - \k <= q && q < length ==> specJSONVal(reversed[q])) && (forall q int :: 0 <= q && q < length - \k ==> isNil(reversed[q]))
+//@   loop 2 decreases len(items) - \k
+
+//@ func jpfMax
+//@   props C05,C10
+//@   requires len(arguments) == 1 && specJSONVal(arguments[0]) && (allNum(arguments[0]) || allStr(arguments[0]))
+//@   assigns \nothing
+//@   ensures {C16} err == nil && specJSONVal(result)
+//@   loop 1 invariant 0 <= \k && \k <= len(items) - 1 && specFinite(best)
+//@   loop 1 decreases len(items) - 1 - \k
+//@   loop 2 invariant 0 <= \k && \k <= len(items) - 1
+//@   loop 2 decreases len(items) - 1 - \k
+
+//@ func jpfMin
+//@   props C05,C10
+//@   requires len(arguments) == 1 && specJSONVal(arguments[0]) && (allNum(arguments[0]) || allStr(arguments[0]))
+//@   assigns \nothing
+//@   ensures {C16} err == nil && specJSONVal(result)
+//@   loop 1 invariant 0 <= \k && \k <= len(items) - 1 && specFinite(best)
+//@   loop 1 decreases len(items) - 1 - \k
+//@   loop 2 invariant 0 <= \k && \k <= len(items) - 1
+//@   loop 2 decreases len(items) - 1 - \k
+
+//@ func jpfSort
+//@   props C05,C10
+//@   requires len(arguments) == 1 && specJSONVal(arguments[0]) && (allNum(arguments[0]) || allStr(arguments[0]))
+//@   assigns \nothing
+//@   ensures {C16} err == nil && specJSONVal(result) && isArr(result)
+//@   loop 1 invariant 0 <= \k && \k <= len(d) && (forall q int :: 0 <= q && q < len(d) ==> specFinite(d[q])) && (forall q int :: 0 <= q && q < \k ==> specJSONVal(final[q])) && (forall q int :: \k <= q && q < len(d) ==> isNil(final[q]))
+//@   loop 1 decreases len(d) - \k
+//@   loop 2 invariant 0 <= \k && \k <= len(d) && (forall q int :: 0 <= q && q < \k ==> specJSONVal(final[q])) && (forall q int :: \k <= q && q < len(d) ==> isNil(final[q]))
+//@   loop 2 decreases len(d) - \k
+
+// --- by-expression functions and the sort adapters
+
+//@ define keyEvalOK(i, node) = i != nil && i.fCall != nil && i.fCall.functionTable == theFunctionTable() && wfNode(node)
+
+//@ func (*byExprFloat).Swap
+//@   props C05
+//@   requires 0 <= i && i < len(a.items) && 0 <= j && j < len(a.items)
+//@   assigns byExprFloat.items[*]
+//@   ensures [same-length] len(a.items) == len(old(a.items))
+//@ func (*byExprString).Swap
+//@   props C05
+//@   requires 0 <= i && i < len(a.items) && 0 <= j && j < len(a.items)
+//@   assigns byExprString.items[*]
+//@   ensures [same-length] len(a.items) == len(old(a.items))
+
+//@ func (*byExprFloat).Less
+//@   props C05
+//@   decreases 4*nodeRank(a.node) + 4
+//@   requires 0 <= i && i < len(a.items) && 0 <= j && j < len(a.items) && keyEvalOK(a.intr, a.node) && allJSON(a.items, len(a.items))
+//@   assigns byExprFloat.hasError
+//@   ensures [flag-only-set] old(a.hasError) ==> a.hasError
+//@   ensures {C11,C10} [errors-and-bad-keys-latched] \errSeen ==> a.hasError
+//@ func (*byExprString).Less
+//@   props C05
+//@   decreases 4*nodeRank(a.node) + 4
+//@   requires 0 <= i && i < len(a.items) && 0 <= j && j < len(a.items) && keyEvalOK(a.intr, a.node) && allJSON(a.items, len(a.items))
+//@   assigns byExprString.hasError
+//@   ensures [flag-only-set] old(a.hasError) ==> a.hasError
+//@   ensures {C11,C10} [errors-and-bad-keys-latched] \errSeen ==> a.hasError
+
+//@ func jpfMap
+//@   props C05,C10
+//@   ghost bound int
+//@   requires nodeRank(refOf(arguments[1])) < bound
+//@   decreases 4*bound + 1
+//@   requires len(arguments) == 3 && intrOK(arguments[0]) && isExpRef(arguments[1]) && wfNode(refOf(arguments[1])) && isArr(arguments[2]) && specJSONVal(arguments[2])
+//@   assigns \nothing
+//@   ensures {C16} err == nil ==> specJSONVal(result) && isArr(result)
+//@   loop 1 invariant 0 <= \k && \k <= len(arr) && !isNil(mapped) && allJSON(mapped, len(mapped))
+//@   loop 1 decreases len(arr) - \k
+
+//@ func jpfMaxBy
+//@   props C05,C10
+//@   ghost bound int
+//@   requires nodeRank(refOf(arguments[2])) < bound
+//@   decreases 4*bound + 1
+//@   requires len(arguments) == 3 && intrOK(arguments[0]) && isArr(arguments[1]) && specJSONVal(arguments[1]) && isExpRef(arguments[2]) && wfNode(refOf(arguments[2]))
+//@   assigns \nothing
+//@   ensures {C16} err == nil ==> specJSONVal(result)
+//@   loop 1 invariant 0 <= \k && \k <= len(arr) - 1 && specJSONVal(bestItem)
+//@   loop 1 decreases len(arr) - 1 - \k
+//@   loop 2 invariant 0 <= \k && \k <= len(arr) - 1 && specJSONVal(bestItem)
+//@   loop 2 decreases len(arr) - 1 - \k
+
+//@ func jpfMinBy
+//@   props C05,C10
+//@   ghost bound int
+//@   requires nodeRank(refOf(arguments[2])) < bound
+//@   decreases 4*bound + 1
+//@   requires len(arguments) == 3 && intrOK(arguments[0]) && isArr(arguments[1]) && specJSONVal(arguments[1]) && isExpRef(arguments[2]) && wfNode(refOf(arguments[2]))
+//@   assigns \nothing
+//@   ensures {C16} err == nil ==> specJSONVal(result)
+//@   loop 1 invariant 0 <= \k && \k <= len(arr) - 1 && specJSONVal(bestItem)
+//@   loop 1 decreases len(arr) - 1 - \k
+//@   loop 2 invariant 0 <= \k && \k <= len(arr) - 1 && specJSONVal(bestItem)
+//@   loop 2 decreases len(arr) - 1 - \k
+
+//@ func jpfSortBy
+//@   props C05,C10
+//@   ghost bound int
+//@   requires nodeRank(refOf(arguments[2])) < bound
+//@   decreases 4*bound + 1
+//@   requires len(arguments) == 3 && intrOK(arguments[0]) && isArr(arguments[1]) && specJSONVal(arguments[1]) && isExpRef(arguments[2]) && wfNode(refOf(arguments[2]))
+//@   assigns \nothing
+//@   ensures {C16} err == nil ==> specJSONVal(result) && isArr(result)
+
+// ---------------------------------------------------------------------------
+// api.go / interpreter construction (C12 C13 C17 and the end-to-end links)
+
+//@ func newFunctionCaller
+//@   props C05
+//@   assigns \nothing
+//@   fresh
+//@   ensures [table] result != nil && result.functionTable == theFunctionTable()
+
+//@ func newInterpreter
+//@   props C05
+//@   assigns \nothing
+//@   fresh
+//@   ensures [ready] result != nil && result.fCall != nil && result.fCall.functionTable == theFunctionTable()
+
+//@ func (*JMESPath).Search
+//@   props C05
+//@   requires wfNode(jp.ast) && jp.intr != nil && jp.intr.fCall != nil && jp.intr.fCall.functionTable == theFunctionTable() && specJSONVal(data)
+//@   assigns \nothing
+//@   ensures {C16} [json-result] err == nil ==> specJSONVal(result)
+
+//@ func Search
+//@   props C05
+//@   requires specJSONVal(data)
+//@   assigns \nothing
+//@   ensures {C16} [json-result] err == nil ==> specJSONVal(result)
+//@   ensures {C17} [error-location] isSyntaxError(err) ==> err.Expression == expression && 0 <= err.Offset && err.Offset <= len(expression)
